@@ -25,7 +25,7 @@ ASSUMPTIONS = [
 ]
 
 PROBE = "PrObE"
-NPOS = 12
+NPOS = 13
 
 
 def build(pos, d, v):
@@ -57,16 +57,36 @@ def build(pos, d, v):
     if pos == 11:  # JOIN ... ON
         u = Table("u")
         return Q.from_(t).join(u).on((t.a == u.a) & (u.b == v)).select(t.a)
+    if pos == 12:  # criterion inside a set-operation operand; rendered through str() (default context + base query's dialect)
+        u = Table("u")
+        return Q.from_(t).select(t.a).where(t.b == v).union(Q.from_(u).select(u.a).where(u.b != v))
     raise AssertionError(pos)
 
 
 def sql_of(stmt, d):
+    from pypika_tortoise.queries import _SetOperation
+    if isinstance(stmt, _SetOperation):
+        return str(stmt)
     return stmt.get_sql(dctx(d))
 
 
 def cut(pos, d, out, probe_lit):
     """The text standing where the probe literal stood; None when the layout differs."""
     tpl = sql_of(build(pos, d, PROBE), d).split(probe_lit)
+    if len(tpl) == 3:
+        # the value stands twice (set-operation position): the text between the first and the last part must be
+        # literal + middle + literal; return the first literal after checking that the second one is identical
+        pre, mid, suf = tpl
+        if len(out) < len(pre) + len(mid) + len(suf) or not out.startswith(pre) or not out.endswith(suf):
+            return None
+        body = out[len(pre):len(out) - len(suf)]
+        k = body.find(mid)
+        while k >= 0:
+            a, b = body[:k], body[k + len(mid):]
+            if a == b:
+                return a
+            k = body.find(mid, k + 1)
+        return None
     if len(tpl) != 2:
         return None
     pre, suf = tpl
@@ -81,7 +101,7 @@ def cut(pos, d, out, probe_lit):
     bounds={"quick": {"L": 3}, "thorough": {"L": 4}},
     timeout={"quick": 120, "thorough": 900},
     witness=[dict(pos=1, d=2, s="a'b"), dict(pos=5, d=1, s="a" + chr(92)), dict(pos=4, d=0, s="")],
-    doc="str value (any code points, len<=L) at 12 value positions x 6 dialect classes; reference lexer must read "
+    doc="str value (any code points, len<=L) at 13 value positions x 6 dialect classes; reference lexer must read "
         "the emitted text as one literal decoding to the value",
 )
 def c05_str(pos: int, d: int, s: str) -> int:
